@@ -135,6 +135,11 @@ def run_history(run, case):
                 pending_chunk += reply_frame(k)
             elif ev[0] == 'dup':
                 pending_chunk += reply_frame(ev[1])
+            elif ev[0] == 'unsolicited' and isinstance(ev[1], str):
+                # 'next+N': a transaction id nobody is waiting for YET - the one the N-th request from now will be given
+                last = [t for t in tids if t is not None]
+                utid = ((last[-1] if last else 0) + int(ev[1].split('+')[1])) & 0xFFFF
+                pending_chunk += ADU.build(framing, units[0], S.encode({'dir': RSP, 'fc': 3, 'registers': [0xDEAD]}), tid=utid)
             else:
                 utid = ev[1]
                 while utid in tids:                 # unsolicited = a transaction id nobody is waiting for
@@ -289,6 +294,13 @@ def run(run):
             ev.insert(cut, ('lose',))
             ev.append(('request',))
             add(run, {'variant': 'tcp', 'n': n, 'events': ev, 'group': 1, 'units': [1]}, ('loss', n, cut))
+    # a stray reply that carries an id of the future, then the requests that are given that id (they must wait for their own reply)
+    for n in (1, 2, 3):
+        for ahead in (1, 2, 3):
+            ev = [('unsolicited', 'next+%d' % ahead)] + [('request',)] * 3
+            add(run, {'variant': 'tcp', 'n': n, 'events': ev, 'group': 1, 'units': [1]}, ('future-id', n, ahead))
+            ev2 = [('reply', k) for k in range(n)] + [('unsolicited', 'next+%d' % ahead)] + [('request',)] * 3 + [('reply', n + ahead - 1)]
+            add(run, {'variant': 'tcp', 'n': n, 'events': ev2, 'group': 1, 'units': [1]}, ('future-id-answered', n, ahead))
     # ... and with a retry handler on request 0 (it is still pending at the loss and submits a new request from its errback)
     for variant in ('tcp', 'rtu'):
         for n in (1, 2, 3, 5):
